@@ -21,6 +21,8 @@ OFFSETS = {'len', 'find', 'rfind', 'len_utf8'}
 def _is_site(nm):
     if 'for str>::index' in nm or 'for std::string::String>::index' in nm:
         return 'range index'
+    if nm.endswith(('::index', '::index_mut')) and nm.startswith(('<std::string::String as std::ops::Index', '<str as std::ops::Index')):
+        return 'range index'
     m = SITE.search(nm)
     if m:
         return m.group(3)
